@@ -130,12 +130,22 @@ class SQLSide(Side):
 
     def prepare(self):
         self.ops = build_ops(self.src)
-        self.sql = to_sql(self.ops, self.dialect, self.options, self.aem)
+        self.sql, self.sql_exc, self.sql_exc_site = None, None, None
+        try:
+            self.sql = to_sql(self.ops, self.dialect, self.options, self.aem)
+        except Exception as e:  # the pipeline was accepted by the builder but the dialect cannot translate it
+            self.sql_exc = f"{type(e).__name__}: {str(e)[:200]}"
+            tb = traceback.extract_tb(e.__traceback__)
+            self.sql_exc_site = tb[-1].name if tb else None
         self.full_join = self.dialect == "sqlite" and _has_full_join(self.ops)
 
     def sym(self, tabs, nrows):
         from vf.sym import sqlsym
 
+        if self.sql_exc is not None:
+            if self.sql_exc_site == "_emit_full_join_as_complex" and "sqlite_full_join_diffkey_unsupported" in pdshim.KF_ON:
+                raise forksym.KnownFindingPath("sqlite_full_join_diffkey_unsupported")
+            return rel.SideResult(exc="to_sql: " + self.sql_exc)
         if self.inmap:
             tabs, nrows = apply_inmap(self.inmap, tabs, nrows)
         sqlsym.FULL_JOIN_EMULATION = self.full_join
@@ -146,6 +156,8 @@ class SQLSide(Side):
         return apply_outmap(self.outmap, r)
 
     def real(self, frames):
+        if self.sql_exc is not None:
+            return None, "to_sql: " + self.sql_exc
         if self.inmap:
             frames = apply_inmap_real(self.inmap, frames)
         if self.dialect == "sqlite":
@@ -337,6 +349,15 @@ class TVHarness(forksym.Harness):
         pdshim.KF_ON.update(j.get("kf_on", []))
         tabs = self.tabs()
         add_assumptions(eng, j.get("assume"), tabs)
+        if j.get("fix_input"):  # replay mode: pin every input cell to a recorded concrete value
+            for t, cols in j["fix_input"].items():
+                for c, vals in cols.items():
+                    for x, v in zip(tabs[t][c], vals):
+                        if v is None:
+                            eng.assume(x.null)
+                        else:
+                            eng.assume(znot(x.null))
+                            eng.assume(x.val == C.coerce(C.lit(v), x.kind).val if x.kind in ("f", "i") and not isinstance(v, (str, bool)) else x.val == C.lit(v).val)
         a = self.A.sym(tabs, dict(j["rows"]))
         b = self.B.sym(tabs, dict(j["rows"]))
         if a.unmodelled or b.unmodelled:
@@ -352,6 +373,21 @@ class TVHarness(forksym.Harness):
         if a.exc is not None:
             self.both_raise += 1
             return True, info
+        cc = j.get("check_cols")
+        if cc:
+            for side, sr in ((self.A, a), (self.B, b)):
+                if getattr(side, "is_reference", False):
+                    continue
+                bad = (list(sr.cols) != list(cc["cols"])) if cc.get("ordered") else (sorted(sr.cols) != sorted(cc["cols"]))
+                if bad:
+                    info["why"] = f"{side.name} returns columns {sr.cols}, pipeline declares {cc['cols']}" + (" (order matters)" if cc.get("ordered") else "")
+                    info["colcheck"] = True
+                    return False, info
+            if j.get("compare") == "cols":
+                return True, info
+        if j.get("compare") == "rowcount":
+            info["why"] = f"row counts differ: {self.A.name} {len(a.rows)} vs {self.B.name} {len(b.rows)}"
+            return len(a.rows) == len(b.rows), info
         ordered = j.get("ordered", "auto")
         if ordered == "auto":
             ordered = bool(b.ordered or a.ordered)
@@ -488,8 +524,8 @@ def _confirm(h, eng, r):
                 continue
             real, exc = side.real(frames)
             pred = rel.predicted(model, sr)
-            ok, detail = rel.validate_side(pred, real, exc, sr.exc, ordered=bool(sr.ordered))
-            reals[side.name] = {"real": real, "exc": exc, "predicted": pred[:2] if pred else None, "agrees_with_model": ok}
+            ok, detail = rel.validate_side(pred, real, exc, sr.exc, ordered=bool(sr.ordered), col_order=bool(info.get("colcheck")))
+            reals[side.name] ={"real": real, "exc": exc, "predicted": pred[:2] if pred else None, "agrees_with_model": ok}
             if not ok:
                 all_ok = False
                 sides.append({"side": side.name, "detail": detail[:500]})
